@@ -1,6 +1,6 @@
 """C03 — destination integrity through every protocol re-encoding (binary codecs)."""
 import harness
-from specs import codec
+from specs import codec, replies
 
 
 def run(ck):
@@ -8,10 +8,11 @@ def run(ck):
         return
     import contracts_async  # noqa  (registers contracts)
     ck.assumptions += ['release arithmetic', 'String values are valid UTF-8 (type invariant); from_utf8/from_utf8_lossy are the identity on valid UTF-8']
-    ck.out_of_scope += ['HTTP CONNECT request line / Host header (text formatting inside std)']
+    ck.out_of_scope += ['text formatting inside std beyond the model in fmtmodel.py (the CONNECT request target and Host header ARE decided)']
     ck.plans.append(codec.replay_plan)
     codec.spec_rpfm_roundtrip(ck)
     codec.spec_socks_udp_roundtrip(ck)
     codec.spec_socks_request_roundtrip(ck, 5)
     codec.spec_socks_request_roundtrip(ck, 4, hostmax=24 if ck.tier == 'quick' else 96)
+    replies.spec_connect_line_roundtrip(ck)
     ck.post_filter = lambda o: o.label.startswith('C03/') or o.status in ('undecided', 'vacuous', 'inconclusive')
